@@ -111,6 +111,12 @@ func main() {
 	}
 	genS := time.Since(t0).Seconds() - loadS
 
+	lems, lemObls, lerr := e.buildLemmas()
+	if lerr != nil {
+		fmt.Fprintln(os.Stderr, lerr)
+		os.Exit(2)
+	}
+	e.obls = append(e.obls, lemObls...)
 	// keep the obligations of the requested property (covers/canaries follow their function)
 	var obls []*Obligation
 	for _, o := range e.obls {
@@ -118,9 +124,41 @@ func main() {
 			obls = append(obls, o)
 		}
 	}
+	// lemma obligations follow the obligations that use them
+	{
+		usedLem := map[string]bool{}
+		for _, o := range obls {
+			if o.Kind == "lemma" {
+				continue
+			}
+			used := map[string]bool{}
+			for _, h := range o.Hyps {
+				appFuncs(h, used)
+			}
+			appFuncs(o.Goal, used)
+			for _, l := range lems {
+				for f := range l.Funcs {
+					if used[f] {
+						usedLem[l.Name] = true
+					}
+				}
+			}
+		}
+		have := map[*Obligation]bool{}
+		for _, o := range obls {
+			have[o] = true
+		}
+		for _, o := range lemObls {
+			nm := strings.TrimPrefix(o.Key, "lemma/")
+			nm = strings.TrimSuffix(strings.TrimSuffix(nm, "/base"), "/step")
+			if usedLem[nm] && !have[o] {
+				obls = append(obls, o)
+			}
+		}
+	}
 	runID := fmt.Sprintf("%s-%s-%d", *prop, *tier, os.Getpid())
 	outDir := filepath.Join(*verif, "out", runID)
-	cfg := solveCfg{outDir: outDir, timeoutS: 10, agree: 1, workers: 16}
+	cfg := solveCfg{outDir: outDir, timeoutS: 10, agree: 1, workers: 16, lemmas: lems}
 	if *tier == "thorough" {
 		cfg.timeoutS, cfg.agree = 60, 2
 	}
